@@ -49,6 +49,7 @@ func c18Ops(e error, fresh []error) []c18Op {
 	// fresh: reference objects nobody has looked at before (an Is() that
 	// memoises per reference is cold for them)
 	refs := append(append([]error{e}, fresh...), gen.Sentinels...)
+	anyRefs := append([]error{gen.HarnessSentinel2, nil}, refs...)
 	return []c18Op{
 		{"fmt %+v", func() string { return obs.Fmt("%+v", e) }},
 		{"redact %+v", func() string { return obs.Red("%+v", e) }},
@@ -58,6 +59,10 @@ func c18Ops(e error, fresh []error) []c18Op {
 			return p + hex.EncodeToString(d)
 		}},
 		{"Is row", func() string { return obs.IsRow(e, refs) }},
+		{"IsAny(shared list)", func() string {
+			// one reference list (with a nil in it) used by every caller
+			return obs.S(func() string { return fmt.Sprint(errors.IsAny(e, anyRefs...), len(anyRefs), anyRefs[1] == nil) })
+		}},
 		{"As", func() string {
 			return obs.S(func() string {
 				var a *gen.ULeafPtr
